@@ -35,7 +35,7 @@ STUB_COMPONENTS = ["leaf processors", "RecordingExecutor", "SimClock/SimUUID", "
 ASSUMPTIONS = ["a rewrite is cosmetic iff yaml.safe_load of both texts is type-strictly equal (dict order ignored; sweep "
                "expressions compared up to +/* operand order)", "equality across worlds only; hashes are not re-implemented"]
 REQUIRED_PROBES = ["reused_pipeline_second_traced_run_with_sweep", "history_contains_failing_run", "fresh_interpreter_other_hashseed",
-                   "world_pair_differs_in_cwd", "rewrite_flow_style", "rewrite_float_spelling", "rewrite_expression_commuted", "with_run_space", "history_contains_type_variant_twin", "rewrite_bool_spelling"]
+                   "world_pair_differs_in_cwd", "rewrite_flow_style", "rewrite_float_spelling", "rewrite_expression_commuted", "with_run_space", "history_contains_type_variant_twin", "rewrite_bool_spelling", "long_lived_orchestrator_short_lived_pipelines", "rewrite_aliased_list"]
 CONFIG = {
     "quick": {"runs": 640, "budget_s": 240, "timeout_s": 240},
     "thorough": {"runs": 20000, "budget_s": 1700, "timeout_s": 240},
@@ -51,6 +51,15 @@ def _digest(obj) -> str:
 def generate(rng: random.Random, tier: str, seed: int) -> dict:
     a = gen.gen_pipeline(rng, max_nodes=6)
     b = gen.gen_pipeline(rng, max_nodes=4)
+    if a["truth"][-1]["out"] == "float" and rng.random() < 0.3:
+        # container-valued node parameters; equal containers inside ONE node's parameters (the rewriter may write the
+        # second one as an alias of the first)
+        lst = [float(rng.randint(1, 9)) for _ in range(rng.randint(1, 3))]
+        tab = {"p": float(rng.randint(1, 5)), "q": 0.5}
+        pp = {"coeffs": lst, "weights": (list(lst) if rng.random() < 0.7 else [1.0]), "table": tab}
+        if rng.random() < 0.6:
+            pp["table2"] = dict(tab)
+        a["nodes"] = a["nodes"] + [{"processor": "SvPoly", "parameters": pp}]
     sc = {"A": {k: a[k] for k in ("nodes", "context", "init_data")}, "B": {k: b[k] for k in ("nodes", "context", "init_data")},
           "worlds": [], "hashseed": rng.choice([1, 2, 3, 4, 5, 6, 7]), "child_world": rng.getrandbits(32)}
     if rng.random() < 0.5:
@@ -62,7 +71,64 @@ def generate(rng: random.Random, tier: str, seed: int) -> dict:
                                     "run_A_failing", "build_A", "inspect_A", "run_A", "inspect_twin", "run_twin_traced"]))
         sc["worlds"].append({"seed": rng.getrandbits(32), "tz": rng.choice(harness.TZS), "cwd": rng.choice(["", "d1", "d1/d2", "x y"]),
                              "history": hist, "rewrite": rng.getrandbits(32)})
+    # one world in ~10 % of the configurations with a sweep: a long-lived orchestrator object serving many short-lived Pipelines
+    if any("derive" in n for n in a["nodes"]) and rng.random() < 0.25:
+        sc["worlds"][-1]["churn"] = rng.choice([150, 300])
     return sc
+
+
+def _sibling(a: dict) -> dict | None:
+    """A with its first sweep expression changed: same shape, different configuration meaning."""
+    v = copy.deepcopy(a)
+    for n in v["nodes"]:
+        sw = (n.get("derive") or {}).get("parameter_sweep")
+        if sw and sw.get("parameters"):
+            k = sorted(sw["parameters"])[0]
+            sw["parameters"][k] = f"({sw['parameters'][k]}) + 0.25"
+            return v
+    return None
+
+
+def _churn(sc: dict, n: int, w, stats: dict) -> list[dict]:
+    """One orchestrator object, n short-lived traced Pipelines alternating between A and a sibling configuration (dropped
+    after each run). Every pipeline_start must carry the identities of ITS configuration."""
+    import gc
+    from semantiva import Pipeline
+    from semantiva.inspection import build_inspection_payload
+    from ..executor import RecordingExecutor, SvOrchestrator, SvTransport
+    A = dict(sc["A"], faults=[])
+    S = _sibling(sc["A"])
+    S = dict(S, faults=[]) if S is not None else dict(sc["B"], faults=[])
+    want = {}
+    for tag, cfg in (("A", A), ("S", S)):
+        pl = build_inspection_payload({"pipeline": {"nodes": copy.deepcopy(cfg["nodes"])}})
+        want[tag] = {"semantic_id": pl["identity"]["semantic_id"], "config_id": pl["identity"]["config_id"],
+                     "node_semantic_ids": {x["uuid"]: x["node_semantic_id"] for x in pl["pipeline_spec_canonical"]["nodes"]}}
+    orch = SvOrchestrator(RecordingExecutor())
+    out = []
+    for k in range(n):
+        tag = "A" if k % 2 == 0 else "S"
+        cfg = A if tag == "A" else S
+        p = Pipeline(copy.deepcopy(cfg["nodes"]), logger=harness.quiet_logger(), orchestrator=orch, transport=SvTransport())
+        rr = harness.run_scenario(cfg, w, trace_mode="file", detail="hash", pipeline=p, name=f"churn{k}")
+        recs, _ = harness.parse_lines(rr["emissions"])
+        st = next((x for x in recs if x.get("record_type") == "pipeline_start"), None)
+        ok = rr["outcome"]["ok"]
+        del p, rr
+        if k % 7 == 0:
+            gc.collect()
+        if st is None or not ok:
+            break
+        meta = st.get("meta") or {}
+        got = {"semantic_id": meta.get("semantic_id"), "config_id": meta.get("config_id"), "node_semantic_ids": meta.get("node_semantic_ids")}
+        if got != want[tag]:
+            d = _first_diff(want[tag], got)
+            out.append(oracles.V("paths", f"shared_orchestrator_pipeline_start_vs_inspect:{_field(d)}",
+                                 f"one orchestrator, short-lived Pipelines alternating A / sibling: run {k} ({tag}): {d}"))
+            break
+    stats["probe.long_lived_orchestrator_short_lived_pipelines"] = 1
+    stats["churn_runs"] = stats.get("churn_runs", 0) + n
+    return out
 
 
 # ---------------------------------------------------------------- cosmetic rewrites
@@ -162,7 +228,14 @@ def rewrite_yaml(cfg: dict, rseed: int, stats: dict) -> tuple[str, dict]:
                 seen[key] = o
             return o
         if isinstance(o, list):
-            return [share(x) for x in o]
+            o = [share(x) for x in o]
+            key = "L" + json.dumps(o, sort_keys=True, default=repr)
+            if len(o) >= 1 and rng.random() < 0.8:
+                if key in seen:
+                    stats["probe.rewrite_aliased_list"] = stats.get("probe.rewrite_aliased_list", 0) + 1
+                    return seen[key]
+                seen[key] = o
+            return o
         return o
 
     shared = share(copy.deepcopy(variant)) if rng.random() < 0.5 else variant
@@ -352,7 +425,12 @@ def world_record(sc: dict, wd: dict, seed: int, stats: dict) -> dict:
         from ..seams import pristine_load
         if not _strict_eq(pristine_load(text), variant):
             raise RuntimeError(f"harness: YAML rewrite is not cosmetic\n{text}")
-        rec = id_record(cfg, text, sc["A"]["context"], sc["A"]["init_data"], w, stats)
+        try:
+            rec = id_record(cfg, text, sc["A"]["context"], sc["A"]["init_data"], w, stats)
+        except Exception as e:  # noqa: BLE001 - the code under test refused this spelling of the configuration
+            rec = {"failed": f"{type(e).__name__}: {e}", "trace_ids": None, "payload": None}
+        if wd.get("churn"):
+            rec["churn_violations"] = _churn(sc, wd["churn"], w, stats)
         rec["world"] = {"tz": wd["tz"], "cwd": wd["cwd"], "history": wd["history"]}
         rec["yaml"] = text
         return rec
@@ -468,6 +546,14 @@ def execute(sc: dict, seed: int) -> dict:
     recs = []
     for wd in sc["worlds"]:
         recs.append(world_record(sc, wd, seed, stats))
+    failed = [r for r in recs if r.get("failed")]
+    if failed and len(failed) < len(recs):
+        # "identical under cosmetic rewrites": one spelling of the configuration is processed, another one is refused
+        r = failed[0]
+        v = oracles.V("payload", "cosmetic_rewrite_refused", f"world (tz={r['world']['tz']}, cwd={r['world']['cwd']!r}) fails with {r['failed']} on a cosmetic "
+                      f"rewrite of a configuration that other worlds process; text:\n{r['yaml'][:700]}")
+        return {"violations": [v], "stats": stats, "digests": [_digest(sc["A"])], "nontrivial": [], "sample": {"yaml": r["yaml"][:600]},
+                "digest": _digest([x.get("failed") for x in recs])}
     if any(r["trace_ids"] is None for r in recs):
         stats["discarded_base_mismatch"] = 1
         return {"violations": [], "stats": stats, "digests": [], "nontrivial": [], "note": recs[0].get("run_error")}
@@ -481,6 +567,8 @@ def execute(sc: dict, seed: int) -> dict:
     if sc.get("run_space"):
         stats["probe.with_run_space"] = 1
     viols = compare(recs)
+    for r in recs:
+        viols.extend(r.get("churn_violations") or [])
     seen, uniq = set(), []
     for v in viols:
         kk = (v["clause"], v["key"])
